@@ -128,11 +128,16 @@ IsHistBase(c) == /\ c.t \in {1, 4} /\ NRows(c) <= HistN
 \* ---------------------------------------------------------------- operations offered in a state
 \* small ops [op, b, v] name the choices; FullOp turns one into the op record of Outline.tla relative to the
 \* current outline
-Op(op, b, cells, line, name, dflt) == [op |-> op, b |-> b, cells |-> cells, line |-> line, name |-> name, dflt |-> dflt]
-AccessOp == Op("access", 0, <<>>, 0, "", <<>>)
+\* form: how the driver passes the new row to Table.add_row(): "list" | "tuple" | "row" (a behave.model.Row object);
+\* irrelevant for the model: every add_row appends the row and marks the table modified
+Op(op, b, cells, line, name, dflt, form) ==
+   [op |-> op, b |-> b, cells |-> cells, line |-> line, name |-> name, dflt |-> dflt, form |-> form]
+AccessOp == Op("access", 0, <<>>, 0, "", <<>>, "")
 NewRowCells(blk, v) == [j \in DOMAIN blk.cols |->
-                          IF j = 1 THEN (IF v = 1 THEN <<"y">> ELSE <<"p", " ", "q">>)
-                          ELSE IF j = 2 THEN (IF v = 1 THEN <<>> ELSE <<UC>>) ELSE <<"z">>]
+                          IF j = 1 THEN (IF v = 1 THEN <<"y">> ELSE IF v = 2 THEN <<"p", " ", "q">> ELSE <<"r">>)
+                          ELSE IF j = 2 THEN (IF v = 1 THEN <<>> ELSE IF v = 2 THEN <<UC>> ELSE <<"x">>) ELSE <<"z">>]
+\* v = 1: a list and an explicit line; v = 2: a list or (rotating) a tuple, no line; v = 3: a Row object, no line
+RowForm(o, p) == IF p.v = 3 THEN "row" ELSE IF p.v = 2 /\ (p.b + Len(o.blocks[p.b].rows)) % 2 = 1 THEN "tuple" ELSE "list"
 ColVariant(n, v) == IF v = 1 THEN << [r \in 1..n |-> <<"C", Dig(r)>>], <<"d">> >>      \* a value for every row
                     ELSE IF v = 2 THEN << <<>>, <<"d">> >>                             \* values=None, default_value
                     ELSE << << <<"K">> >>, <<>> >>                                     \* first row only, "" for the rest
@@ -140,14 +145,18 @@ FullOp(o, p) ==
    IF p.op = "access" THEN AccessOp
    ELSE IF p.op = "addrow"
    THEN Op("addrow", p.b, NewRowCells(o.blocks[p.b], p.v),
-           IF p.v = 1 THEN 70 + 10 * p.b + Len(o.blocks[p.b].rows) ELSE 0, "", <<>>)   \* v = 1: explicit line
-   ELSE LET cv == ColVariant(Len(o.blocks[p.b].rows), p.v) IN Op("addcol", p.b, cv[1], 0, "c", cv[2])
+           IF p.v = 1 THEN 70 + 10 * p.b + Len(o.blocks[p.b].rows) ELSE 0, "", <<>>, RowForm(o, p))
+   ELSE LET cv == ColVariant(Len(o.blocks[p.b].rows), p.v) IN Op("addcol", p.b, cv[1], 0, "c", cv[2], "")
 Small(op, bi, v) == [op |-> op, b |-> bi, v |-> v]
-OpsFor(o) == {Small("access", 0, 0)}
-             \cup {Small("addrow", bi, v) : bi \in DOMAIN o.blocks, v \in 1..2}
+\* (a row given as a tuple keeps tuple cells, Table.add_column() cannot extend it: no AddCol on such a table)
+\* rowvs: the AddRow variants offered (the long op sequences of Deep leave the explicit-line variant out)
+OpsFor(o, done, rowvs) ==
+             {Small("access", 0, 0)}
+             \cup {Small("addrow", bi, v) : bi \in DOMAIN o.blocks, v \in rowvs}
              \cup UNION {{Small("addcol", bi, v) :
                             v \in (IF Len(o.blocks[bi].rows) = 0 THEN {2} ELSE IF Len(o.blocks[bi].rows) = 1 THEN {1, 2} ELSE {1, 2, 3})} :
-                         bi \in {y \in DOMAIN o.blocks : "c" \notin Range(o.blocks[y].cols)}}
+                         bi \in {y \in DOMAIN o.blocks : /\ "c" \notin Range(o.blocks[y].cols)
+                                                         /\ \A k \in DOMAIN done : ~(done[k].form = "tuple" /\ done[k].b = y)}}
 
 \* ---------------------------------------------------------------- state space
 \* hs = [ops (full op records), st (Outline.tla: cur, cache, mod), preds (the cache after every access)]
@@ -165,7 +174,7 @@ Next == \/ ph = "start"  /\ ph' = "bucket" /\ b' \in 0..(NB - 1) /\ cs' = cs /\ 
         \/ ph = "bucket" /\ ph' = "case" /\ b' = b /\ cs' \in {x \in Cases : Bucket(x) = b}
                          /\ hs' = [ops |-> <<>>, st |-> InitSt(Mk(cs')), preds |-> <<>>]
         \/ /\ ph \in {"case", "hist"} /\ IsHistBase(cs) /\ Len(hs.ops) < HistLenOf(cs)
-           /\ \E p \in OpsFor(hs.st.cur) :
+           /\ \E p \in OpsFor(hs.st.cur, hs.ops, IF HistLenOf(cs) > HistLen THEN {2, 3} ELSE {1, 2, 3}) :
                  LET op  == FullOp(hs.st.cur, p)
                      st2 == Apply(hs.st, op, S)
                  IN hs' = [ops |-> Append(hs.ops, op), st |-> st2,
